@@ -47,6 +47,12 @@ SimForged ==
        /\ Leader(r) # Me /\ Rnd(k) < r
        /\ trace' = Append(trace, [a |-> "Proposal", blk |-> <<r, Leader(r), 9, k>>, tc |-> NoTC, forged |-> TRUE])
        /\ UNCHANGED vars
+\* a vote in the node's OWN name that it never signed (another authority's signature): it must be rejected, the model does not move
+SimForgedVote ==
+  /\ UseVotes /\ {b \in Known \ {Genesis} : Rnd(b) >= Cur - 1} # {}
+  /\ \E b \in {Pick({x \in Known \ {Genesis} : Rnd(x) >= Cur - 1})} :
+       /\ trace' = Append(trace, [a |-> "Vote", blk |-> b, author |-> Me, forged |-> TRUE])
+       /\ UNCHANGED vars
 SimVote ==
   /\ UseVotes /\ VoteCands # {}
   /\ \E v \in {Pick(VoteCands)} :
@@ -68,7 +74,7 @@ SimTimer ==
   /\ trace' = Append(trace, [a |-> "Timer"])
 
 \* proposals are the most informative stimulus: give them more weight
-External == SimProposal \/ SimProposal \/ SimVote \/ SimTimeout \/ SimTC \/ SimTimer \/ SimForged
+External == SimProposal \/ SimProposal \/ SimVote \/ SimTimeout \/ SimTC \/ SimTimer \/ SimForged \/ SimForgedVote
 SNext == IF InternalEnabled THEN Internal /\ UNCHANGED trace ELSE External
 SSpec == SInit /\ [][SNext]_svars
 
